@@ -439,6 +439,12 @@ func c20Random(s Src, tier string) *Case {
 	for i := 0; i < n; i++ {
 		if Chance(s, "genline", 1, 4) {
 			// a line straight from the grammar (no prediction needed: the oracle is the fresh session)
+			if Chance(s, "validline", 1, 3) {
+				// a whole valid-by-construction program (closures, containers of functions, loops) on one line
+				prog, _ := validProgramOpt(s, true)
+				pool = append(pool, c20Line{fmt.Sprintf("valid%d", i), "gen", strings.Join(strings.Fields(strings.ReplaceAll(prog, "\n", " ")), " ")})
+				continue
+			}
 			pool = append(pool, c20Line{fmt.Sprintf("gen%d", i), "gen", randomLine(s)})
 			continue
 		}
